@@ -94,6 +94,12 @@ func TestC14_roundtrip(t *testing.T) {
 		}
 		st.Half = rapid.IntRange(0, 150).Draw(t, "half")
 		st.Full = rapid.IntRange(0, 600).Draw(t, "full")
+		if rapid.IntRange(0, 9).Draw(t, "bigclocks") == 0 {
+			// the FEN counters are plain non-negative integers: the boundaries of the integer widths
+			big := []int{127, 128, 255, 256, 300, 32767, 32768, 65535, 65536, 1 << 31, 1<<31 - 1, 1 << 40, 1<<62 + 1}
+			st.Half = rapid.SampledFrom(big).Draw(t, "bighalf")
+			st.Full = rapid.SampledFrom(big).Draw(t, "bigfull")
+		}
 		return fenCase{FEN: st.FEN()}
 	}, func(c fenCase) error {
 		stats.Sample("C14/roundtrip", c.FEN)
@@ -189,8 +195,8 @@ func genEngineCase(t *rapid.T) engineCase {
 		switch {
 		case k == 0 || (i == 0 && k < 15):
 			st := gen.Start(t)
-			st.Half = rapid.SampledFrom([]int{0, 0, 1, 17, 98, 99}).Draw(t, "half")
-			st.Full = rapid.SampledFrom([]int{1, 1, 2, 40}).Draw(t, "full")
+			st.Half = rapid.SampledFrom([]int{0, 0, 1, 17, 98, 99, 100, 127, 254, 255, 256, 299, 32767, 65535, 65536, 1<<31 - 1}).Draw(t, "half")
+			st.Full = rapid.SampledFrom([]int{1, 1, 2, 40, 127, 255, 256, 32767, 65535, 65536, 1<<31 - 1}).Draw(t, "full")
 			g = oracle.NewGame(st)
 			c.Ops = append(c.Ops, engineOp{Op: "reset", Arg: st.FEN()})
 		case k <= 4:
